@@ -24,6 +24,7 @@ def install():
     C.stub(M, "int", S.sym_int)
     C.stub(HB, "timedelta", S.sym_timedelta)
     C.stub(HB, "int", S.sym_int)
+    C.shadow_module(HB)
 
 
 def inputs(x, n, ntags=2):
@@ -31,7 +32,7 @@ def inputs(x, n, ntags=2):
     raw = []
     for i in range(n):
         k = x.zint("k%d" % i, 0, T_MAX_MS)
-        d = x.zint("d%d" % i, -D_MAX_US, D_MAX_US)
+        d = x.ranged("dm%d" % i, 0, 2**17) * 1000 if C.FLOATS else x.zint("d%d" % i, -D_MAX_US, D_MAX_US)
         l = x.zint("l%d" % i, 0, ntags - 1)
         raw.append((k * 1000, d, l))
         evs.append(mk_event(x, k * 1000, d, {"k": x.wrap(l)}, aligned=False))
@@ -120,6 +121,8 @@ def h_reach(x):
 def harnesses(tier):
     install()
     hs = [(Harness(PROP, "merge-pair", h_merge, {}, "heartbeat_merge on two events, all fields symbolic", cross_solver=20), 120)]
+    hs.append((Harness(PROP, "merge-pair-float-semantics", C.with_floats(h_merge), {}, "heartbeat_merge on two events with IEEE double semantics for any float arithmetic, durations whole ms < 2^17 in binary range pieces", split_depth=7, fresh_solver=True), 600))
+    hs.append((Harness(PROP, "reduce-n2-float-semantics", C.with_floats(h_reduce), dict(n=2), "heartbeat_reduce on 2 events with IEEE double semantics for any float arithmetic, durations whole ms < 2^17 in binary range pieces", split_depth=7, fresh_solver=True), 600))
     ns = [2, 3] if tier == "quick" else [2, 3, 4, 5]
     for n in ns:
         hs.append((Harness(PROP, "reduce-n%d" % n, h_reduce, dict(n=n), "heartbeat_reduce on %d events vs left fold of the reference rule" % n, split_depth=8, cross_solver=3), 900))
